@@ -218,6 +218,52 @@ def run(rng, tier, model_ok):
         if want is not None and got is not None and sorted(map(list, got)) != sorted(want):
             failures.append({"input": tx, "why": "the power follows the last unit of the word: expected %s, read as %s" % (sorted(want), sorted(map(list, got)))})
     stats["concatenated_words_with_power"] = len(cat)
+    # ---- a word that runs a unit symbol, a prefix and another unit symbol together (mkg, hkW, Nmkg): if it is accepted at all, it is
+    # read as some way of cutting it into words of the cross product (prefix + name, or a name), each with the reading it has alone
+    vocab = set(n for n, _, _ in names) | set(p + n for p, _ in prefixes for n, _, _ in names)
+    shortn = sorted({n for n, _, _ in names if len(n) <= 2 and n.isascii() and n.isalpha()})
+    shortp = sorted({p for p, _ in prefixes if len(p) == 1 and p.isascii()})
+    run3 = [a + p_ + b for a in shortn for p_ in shortp for b in shortn]
+    run3 += [a + b + p_ + c for a in shortn[:12] for b in shortn[:12] for p_ in shortp[:8] for c in shortn[:12]]
+    if tier == "quick":
+        run3 = rng.sample(run3, min(len(run3), 3000))
+    r3 = unitlib.impl_units(run3)
+
+    def cuts(w):
+        if not w:
+            yield []
+            return
+        for i in range(1, len(w) + 1):
+            if w[:i] in vocab:
+                for rest in cuts(w[i:]):
+                    yield [w[:i]] + rest
+    need = sorted({part for w, got in zip(run3, r3) if got for c in cuts(w) for part in c})
+    alone = dict(zip(need, unitlib.impl_units(need)))
+    nrun = 0
+    for w, got in zip(run3, r3):
+        if not got:
+            continue
+        nrun += 1
+        ok = False
+        for c in cuts(w):
+            parts = [alone.get(x) for x in c]
+            if any(not x for x in parts):
+                continue
+            comb = {}
+            for x in parts:
+                for u_, pw, pf in x:
+                    comb.setdefault((u_, pf), 0)
+                    comb[(u_, pf)] += pw
+            if sorted([u_, pw, pf] for (u_, pf), pw in comb.items() if pw) == sorted(map(list, got)):
+                ok = True
+                break
+        if not ok:
+            f = {"input": w, "why": "accepted and read as %s, which is no way of cutting the word into prefix+name words %s" % (got, list(cuts(w))[:6])}
+            if not lex.word_clean(w.encode("utf-8")):
+                f["key"] = "logos-not-maximal-munch"
+            failures.append(f)
+    stats["run_together_words_accepted"] = nrun
+    stats["run_together_words"] = len(run3)
     # ---- a word means the same whatever it is cast to: every unit against a representative of every dimension
     for q, na, nt in unitlib.cast_matrix(V, rng, tier):
         def co(reply, na=na, nt=nt, q=q):
@@ -324,7 +370,7 @@ def run(rng, tier, model_ok):
         "evaluations": len(cases) + len(items) + len(exprs) + len(docnames), "distinct_nontrivial": stats["accepted"] + stats["unit_expressions"],
         "rule": "every unit name and alias alone and crossed with every prefix spelling (thorough: all %d words; quick: all bare names and a "
                 "sample), every documented name, every reference unit converted to base SI units, random unit expressions with juxtaposition "
-                "* / ^n, random concatenations of token fragments and stray bytes; non-trivial = accepted words + checked expressions" % (len(names) * (len(prefixes) + 1)),
+                "* / ^n, words that run a unit, a prefix and a unit together, random concatenations of token fragments and stray bytes; non-trivial = accepted words + checked expressions" % (len(names) * (len(prefixes) + 1)),
         "samples": words[100:104] + [q for q, _ in items[:3]] + [text for text, _ in exprs[:3]],
         "mismatches": mismatches, "failures": failures,
         "extra": dict(stats, model_cases_evaluated_in_coq=len(cases), exhaustive=(tier == "thorough"),
